@@ -346,7 +346,7 @@ pub fn gen_c01(run: &mut Run, seed: u64, thorough: bool) {
         let cur = g.sets.last().unwrap().clone();
         let cn = cur.signers.len();
         // (c) tampering with what the proof declares (honestly re-signed over the tampered set's own hash AND over the real one)
-        for tamper in 0..8 {
+        for tamper in 0..10 {
             let m = g.fresh_msg();
             let dh = approve_data_hash(&g.env, &[m.clone()]);
             let mut t = cur.clone();
@@ -375,6 +375,19 @@ pub fn gen_c01(run: &mut Run, seed: u64, thorough: bool) {
                 4 => {
                     t.signers[0].1 += 1;
                     "weight+1"
+                }
+                8 => {
+                    // an extra signer that carries NO weight (and will not sign): still not the registered set
+                    let extra = (0..NKEYS).map(pk).find(|p| !t.signers.iter().any(|(k, _)| k == p)).unwrap();
+                    t.signers.push((extra, 0));
+                    t.signers.sort_by(|a, b| a.0.cmp(&b.0));
+                    "add-weightless"
+                }
+                9 => {
+                    let mut extra = [0xffu8; 32];
+                    extra[31] = 0xfe;
+                    t.signers.push((extra, 0));
+                    "add-weightless-unknown-key-last"
                 }
                 5 => {
                     t.threshold = t.threshold.saturating_sub(1).max(1);
@@ -729,6 +742,34 @@ pub fn gen_c02(run: &mut Run, seed: u64, thorough: bool) {
             }
         }
     }
+    // directed: ONE signed batch of 40 (thorough: 300) distinct messages — every one of them is recorded, announced and consumable
+    {
+        let ws = g.mk_set(2, 0, 2);
+        g.new_gateway("c02-large-batch", vec![ws.clone()], 0, 0);
+        let n = if thorough { 300 } else { 40 };
+        let app = Addr::c(60);
+        let ms: Vec<Msg> = (0..n).map(|i| Msg { chain: b"eth".to_vec(), id: format!("big-{i}").into_bytes(), src: b"src".to_vec(), contract: app.clone(), ph: keccak(&[i as u8]) }).collect();
+        let pf = g.honest(&ws, &approve_data_hash(&g.env, &ms));
+        g.approve(&ms, &pf, "approve-large-batch");
+        for (i, m) in ms.iter().enumerate() {
+            g.q_msg(m);
+            if i % 7 == 0 || i + 1 == ms.len() || i == 32 || i == 33 {
+                g.run.op(
+                    &format!("gw.validate_message {} {} {} {} {} {}", app.tok(), hx(&m.chain), hx(&m.id), hx(&m.src), hex::encode(m.ph), AuthSpec::exact(&[app.clone()]).tok()),
+                    "consume-from-large-batch",
+                );
+                g.q_msg(m);
+            }
+        }
+        // a batch [known, new, known]: the new one in the middle counts
+        let a_ = ms[0].clone();
+        let c_ = ms[1].clone();
+        let b_ = Msg { chain: b"eth".to_vec(), id: b"middle".to_vec(), src: b"src".to_vec(), contract: app.clone(), ph: keccak(b"mid") };
+        let batch = vec![a_, b_.clone(), c_];
+        let pf = g.honest(&ws, &approve_data_hash(&g.env, &batch));
+        g.approve(&batch, &pf, "approve-known-new-known");
+        g.q_msg(&b_);
+    }
     // directed: destinations that are ACCOUNT addresses (an ordinary one, the all-zero one), alone and between two contract
     // destinations in one batch: recorded and announced like any other (mock authorisations exist for contract addresses only, so
     // consumption by an account is tried under the blanket authorisation and without any)
@@ -910,6 +951,55 @@ pub fn gen_c03(run: &mut Run, seed: u64, thorough: bool) {
             g.new_gateway(&format!("c03-proofs-{r}"), vec![a0, a1], retention.max(1), 0);
             g.rotate_honest(&a2, "history-rotation");
             g.q_auth_state(&[]);
+            // a set installed EARLIER (the first, the second, the latest itself) proposed again, properly signed by the latest
+            // set, through the ordinary and through the operator's path: refused either way
+            for i in 0..g.sets.len() {
+                let cand = g.sets[i].clone();
+                let latest = g.sets.last().unwrap().clone();
+                let pf = g.honest(&latest, &cand.rotation_data_hash(&g.env));
+                g.rotate(&cand, &pf, false, &AuthSpec::None, "repeat-earlier-set-ordinary-path");
+                let op = g.operator.clone();
+                g.rotate(&cand, &pf, true, &AuthSpec::exact(&[op]), "repeat-earlier-set-bypass-path");
+                g.q_auth_state(&[]);
+            }
+        }
+        // LARGE candidate sets (130 and 300 signers; the keys need no signer behind them): the rules hold to the last entry — a
+        // duplicate, a descending pair, a zero weight, an overflowing weight at the very end are refused; the well-formed set
+        // is installed (last, because nobody can sign for it afterwards)
+        if r == 0 {
+            for n in [130usize, 300] {
+                let a0 = g.mk_set(2, 0, 2);
+                g.new_gateway(&format!("c03-large-{r}-{n}"), vec![a0.clone()], 1, 0);
+                let keys: Vec<[u8; 32]> = (0..n).map(|i| { let mut k = [0x11u8; 32]; k[30] = (i >> 8) as u8; k[31] = i as u8; k }).collect();
+                let good = WS { signers: keys.iter().map(|k| (*k, 1u128)).collect(), threshold: 100, nonce: [n as u8; 32] };
+                let mut variants: Vec<(WS, &str)> = vec![];
+                let mut v = good.clone();
+                v.signers[n - 1].0 = v.signers[n - 2].0;
+                variants.push((v, "last-duplicate"));
+                let mut v = good.clone();
+                v.signers.swap(n - 1, n - 2);
+                variants.push((v, "last-pair-descending"));
+                let mut v = good.clone();
+                v.signers[n - 1].1 = 0;
+                variants.push((v, "last-zero-weight"));
+                let mut v = good.clone();
+                v.signers[n - 1].1 = u128::MAX;
+                variants.push((v, "last-weight-overflows"));
+                let mut v = good.clone();
+                v.signers[129].1 = 0;
+                variants.push((v, "entry-129-zero-weight"));
+                let mut v = good.clone();
+                v.threshold = n as u128 + 1;
+                variants.push((v, "threshold-above-total"));
+                variants.push((good.clone(), "well-formed"));
+                for (cand, name) in variants {
+                    let latest = g.sets.last().unwrap().clone();
+                    let pf = g.honest(&latest, &cand.rotation_data_hash(&g.env));
+                    g.rotate(&cand, &pf, false, &AuthSpec::None, &format!("cand-large-{n}-{name}"));
+                    g.run.op("gw.epoch", "q");
+                    g.run.op(&format!("gw.epoch_by_hash {}", hex::encode(cand.hash(&g.env))), "q");
+                }
+            }
         }
         // rotation proofs by SUBSETS of the latest set (a 3-signer set with weights 5,5,1 and threshold 10 is installed before
         // each attempt): unsigned entries before a signed one, signed weight below / at / above the threshold
@@ -1082,6 +1172,15 @@ pub fn gen_c08(run: &mut Run, seed: u64, thorough: bool) {
                 if step == steps {
                     break;
                 }
+                // with a non-zero delay and no time passing: the operator's bypass signed by the LATEST set goes through at once
+                if delay > 0 && step % 2 == 1 {
+                    let cand = g.mk_set(2, 0, 2);
+                    let latest = g.sets.last().unwrap().clone();
+                    let pf = g.honest(&latest, &cand.rotation_data_hash(&g.env));
+                    let op = g.operator.clone();
+                    g.rotate(&cand, &pf, true, &AuthSpec::exact(&[op]), "rotate-bypass-latest-inside-window");
+                    g.run.op("gw.epoch", "q");
+                }
                 // rotation attempts by an older set: without bypass (must fail unless latest), with bypass
                 let n = g.sets.len();
                 if n >= 2 {
@@ -1242,6 +1341,21 @@ pub fn gen_c09(run: &mut Run, seed: u64, thorough: bool) {
             }
         }
     }
+    // deployment at ledger time ZERO counts like any other: with delay 10 the first plain rotation is refused at 0, 5 and 9,
+    // accepted at 10 (a fresh gateway per probe)
+    for probe_at in [0u64, 5, 9, 10, 11] {
+        sc += 1;
+        g.now = 0;
+        let init = vec![g.mk_set(2, 0, 2)];
+        g.new_gateway(&format!("c09-genesis-{sc}-probe{probe_at}"), init, 3, 10);
+        g.set_time(probe_at);
+        let cand = g.mk_set(2, 0, 2);
+        let latest = g.sets.last().unwrap().clone();
+        let pf = g.honest(&latest, &cand.rotation_data_hash(&g.env));
+        g.rotate(&cand, &pf, false, &AuthSpec::None, &format!("genesis-deployment-probe-at-{probe_at}"));
+        g.run.op("gw.epoch", "q");
+    }
+    g.now = 5000;
     for rep in 0..reps {
         for &delay in &delays {
             sc += 1;
@@ -1371,7 +1485,7 @@ pub fn gen_c13(run: &mut Run, seed: u64, thorough: bool) {
     let m0 = g.fresh_msg();
     let pf = g.honest(&s0, &approve_data_hash(&g.env, &[m0.clone()]));
     g.approve(&[m0.clone()], &pf, "setup-approve");
-    let mut sizes: Vec<usize> = vec![0, 1, 31, 32, 33, 135, 136, 137, 272, 4096, 8192, 8193, 16385, 65537];
+    let mut sizes: Vec<usize> = vec![0, 1, 31, 32, 33, 135, 136, 137, 272, 4096, 8192, 8193, 16385, 65537, 131072, 131073, 300001];
     if thorough {
         sizes.push(40960);
         sizes.extend([2, 64, 100, 271, 273, 1000]);
@@ -1405,6 +1519,37 @@ pub fn gen_c13(run: &mut Run, seed: u64, thorough: bool) {
             );
         }
         // state unchanged
+        g.run.op("gw.epoch", "q");
+        g.q_msg(&m0);
+    }
+    // calls made INSIDE a migration window (after the owner's `upgrade`, before the `migrate`): announced like any other; the
+    // window opens and closes as the model says (a migration without an upgrade, and a second one, are refused)
+    {
+        g.run.op("gw.migrate @", "migrate-without-upgrade");
+        g.run.op("gw.upgrade -", "upgrade-nobody");
+        g.run.op("gw.upgrade @", "upgrade-owner");
+        for (k, sz) in [0usize, 5, 40].iter().enumerate() {
+            let payload = g.rng.bytes(*sz);
+            g.run.op(
+                &format!("gw.call_contract {} {} {} {} {}", c_sender.tok(), hx(b"ethereum"), hx(b"0xdest"), hx(&payload), AuthSpec::exact(&[c_sender.clone()]).tok()),
+                &format!("contract-sender-auth-inside-migration-window-{k}"),
+            );
+            g.run.op(
+                &format!("gw.call_contract {} {} {} {} -", c_sender.tok(), hx(b"ethereum"), hx(b"0xdest"), hx(&payload)),
+                "contract-sender-nobody-inside-migration-window",
+            );
+        }
+        let m = g.fresh_msg();
+        let pf = g.honest(&s0, &approve_data_hash(&g.env, &[m.clone()]));
+        g.approve(&[m.clone()], &pf, "approve-inside-migration-window");
+        g.q_msg(&m);
+        g.run.op(&format!("gw.migrate {}", g.operator.tok()), "migrate-operator");
+        g.run.op("gw.migrate @", "migrate-owner");
+        g.run.op("gw.migrate @", "migrate-owner-again");
+        g.run.op(
+            &format!("gw.call_contract {} {} {} {} {}", c_sender.tok(), hx(b"ethereum"), hx(b"0xdest"), hx(b"after"), AuthSpec::exact(&[c_sender.clone()]).tok()),
+            "contract-sender-auth-after-migration",
+        );
         g.run.op("gw.epoch", "q");
         g.q_msg(&m0);
     }
